@@ -36,13 +36,14 @@ def run(tier, seed, replay=None):
     common.lean_gate(rep, THEOREMS)
     build = common.build_repo("rel")
     work = common.new_workdir("c13")
-    n = 9 if tier == "quick" else 40
+    n = 12 if tier == "quick" else 40
     rng = random.Random(seed * 13 + 13)
     progs = []
     for i in range(n):
         r = random.Random(rng.getrandbits(64))
-        fam = i % 3
-        p = gen.gen_match_program(r, npasses=3, size="medium") if fam == 0 else (gen.gen_class_program(r, size="medium") if fam == 1 else gen.gen_gattr_program(r))
+        fam = i % 4
+        p = (gen.gen_match_program(r, npasses=3, size="medium") if fam == 0 else gen.gen_class_program(r, size="medium") if fam == 1
+             else gen.gen_gattr_program(r) if fam == 2 else gen.gen_feature_program(r))
         progs.append(("g%03d" % i, p, None))
     fonts = os.path.join(common.REPO, "test/GrcRegressionTest/fonts")
     for gdl, font, opts in SUITE if tier == "quick" else SUITE + [("PadaukMain.gdl", "PadaukInput.ttf", ["-v3"])]:
